@@ -192,5 +192,31 @@ theorem genuine_iff_lalrConflict (ok : Assemble.CtxOK c) (hlen : fm.length = c.n
     · rw [List.getD_eq_getElem?_getD, List.getElem?_eq_getElem hs1]; rfl
     · intro e; apply hne; rw [← hk1, ← hk2, e]
 
+/-! ### transitions = the canonical goto function, up to the state correspondence -/
+
+/-- along a transition of the machine, the canonical goto of any item set with the source state's cores has the
+target state's cores -/
+theorem transition_canon (ok : Assemble.CtxOK c) (hlen : fm.length = c.nN) (mok : MachineOK c fm m)
+    {tr : Transition} (htr : tr ∈ m.transitions) {I : Item → Prop}
+    (hsc : SameCoresPS I (m.states.getD tr.frm [])) :
+    SameCoresPS (PClos c fm (Moved c I tr.sym)) (m.states.getD tr.to []) := by
+  have htot : ∀ x, ∃ imp, impliedItems c fm x = some imp := NoPanic.impliedItems_some ok hlen
+  intro p
+  rw [pclos_cores htot p, target_cores mok htr p]
+  exact creach_iff (moved_cores tr.sym hsc) p
+
+/-- wherever a canonical state merged into `s` has a symbol right of a dot, the machine has the transition -/
+theorem canon_transition (mok : MachineOK c fm m) {s : Nat} (hs : s < m.states.length) {I : Item → Prop}
+    (hsc : SameCoresPS I (m.states.getD s [])) {x : Item} (hx : I x) {X : Sym Nat Nat}
+    (hsym : symRightOfDot c x = some X) : ∃ t', (⟨s, t', X⟩ : Transition) ∈ m.transitions := by
+  obtain ⟨y, hy, hcore⟩ := (hsc (coreOf x)).mp ⟨x, hx, rfl⟩
+  have hsym' : symRightOfDot c y = some X := by
+    unfold symRightOfDot at hsym ⊢
+    unfold coreOf at hcore
+    simp only [Prod.mk.injEq] at hcore
+    rw [hcore.1, hcore.2]; exact hsym
+  obtain ⟨t', htr, _⟩ := mok.done s hs y hy X hsym'
+  exact ⟨t', htr⟩
+
 end Machine
 end KikiVerif
